@@ -55,8 +55,39 @@ def r6_position_writers(F, res):
         res.anchor_lost(rid, "%d position writers found, 4 on the audited tree" % seen)
 
 
+def r8_glr_error_head(F, res):
+    """The error is reported at `the first token that cannot continue any sentence`. The heads of the last GLR frontier base
+    can stand at different positions (tokens of different lengths under lexical ambiguity); the error has to be made from
+    the furthest one. make_error takes `last_frontier_base.first()` - whichever head sorts first by state number (D38)."""
+    rid = res.rule("C12-R8", "the GLR error position comes from the furthest head of the last frontier base, not from an arbitrary one",
+                   floor=1)
+    try:
+        f = F.one(rt.GLR + "make_error$")
+    except Exception:      # noqa
+        res.anchor_lost(rid, "GlrParser::make_error not found")
+        return
+    first = furthest = False
+    for p in Sim(f, F, max_paths=100000).run():
+        for e in p.events:
+            if e[0] == "call" and mir.call_matches(e[1], "error_expected") and len(e[2]) > 2:
+                ctxt = e[2][2]
+                if mir.has_call(ctxt, "slice::<impl [T]>::first") or mir.has_call(ctxt, "::first"):
+                    first = True
+                if any(mir.has_call(ctxt, k) for k in ("max_by_key", "max_by", "::max", "::last", "sort")):
+                    furthest = True
+    if not (first or furthest):
+        res.undecided(rid, "how make_error picks the head it reports the position of was not recognised", f.loc())
+    elif first and not furthest:
+        res.violation(rid, "glr-error-first-head", "GlrParser::make_error builds the error from `last_frontier_base.first()`: with heads "
+                      "at different positions in one frontier (`S: A X | AB Y;` A:'a' AB:'ab' on `abz`) the reported position is 1, "
+                      "the first offending token is at 2; it depends on state numbering (the reordered grammar reports 2)", f.loc())
+    else:
+        res.ok(rid, "glr-error-first-head", f.loc(), "the head is chosen by position")
+
+
 def run(ctx, res):
     F = ctx.facts("core")
+    r8_glr_error_head(F, res)
     rid1 = res.rule("C12-R1", "LR error path: Err(error_expected(input, file, ctx, expected kinds of the current state)) only on "
                     "the table row `no token, no layout progress, not (partial and STOP expected)`", floor=2)
     f, rows = rt.lr_next_token_table(F, res, rid1)
